@@ -1,4 +1,4 @@
-import ExprModel.Proofs.Decode
+import ExprModel.Proofs.BcDecode
 /-
 C05, part 2: the compositional invariant behind `compile_wfStatic`.
 A code fragment is `Frag`-well-formed when its operands are in range and of the expected kind, all of its
@@ -9,59 +9,59 @@ namespace ExprModel
 
 /-! ### instruction boundaries -/
 
-@[simp] theorem boundary_zero (is : List Instr) : boundary is 0 = true := by
-  cases is <;> simp [boundary]
+@[simp] theorem boundary_zero (is : List Instr) : instrBoundary is 0 = true := by
+  cases is <;> simp [instrBoundary]
 
 theorem boundary_cons_of (i : Instr) (is : List Instr) (t : Nat)
-    (h1 : i.size ≤ t) (h2 : boundary is (t - i.size) = true) : boundary (i :: is) t = true := by
-  simp [boundary, h1, h2]
+    (h1 : i.size ≤ t) (h2 : instrBoundary is (t - i.size) = true) : instrBoundary (i :: is) t = true := by
+  simp [instrBoundary, h1, h2]
 
-theorem boundary_le : ∀ (is : List Instr) (t : Nat), boundary is t = true → t ≤ codeSize is
-  | [], t, h => by simp [boundary] at h; simp [h]
+theorem boundary_le : ∀ (is : List Instr) (t : Nat), instrBoundary is t = true → t ≤ codeSize is
+  | [], t, h => by simp [instrBoundary] at h; simp [h]
   | i :: is, t, h => by
-    simp only [boundary, Bool.or_eq_true, beq_iff_eq, Bool.and_eq_true, decide_eq_true_eq] at h
+    simp only [instrBoundary, Bool.or_eq_true, beq_iff_eq, Bool.and_eq_true, decide_eq_true_eq] at h
     rcases h with h | ⟨h1, h2⟩
     · omega
     · have := boundary_le is _ h2; simp; omega
 
-theorem boundary_append_left : ∀ (a b : List Instr) (t : Nat), boundary a t = true → boundary (a ++ b) t = true
-  | [], b, t, h => by simp [boundary] at h; simp [h]
+theorem boundary_append_left : ∀ (a b : List Instr) (t : Nat), instrBoundary a t = true → instrBoundary (a ++ b) t = true
+  | [], b, t, h => by simp [instrBoundary] at h; simp [h]
   | i :: a, b, t, h => by
-    simp only [boundary, Bool.or_eq_true, beq_iff_eq, Bool.and_eq_true, decide_eq_true_eq] at h
+    simp only [instrBoundary, Bool.or_eq_true, beq_iff_eq, Bool.and_eq_true, decide_eq_true_eq] at h
     rcases h with h | ⟨h1, h2⟩
     · simp [h]
-    · simp only [List.cons_append, boundary, Bool.or_eq_true, beq_iff_eq, Bool.and_eq_true, decide_eq_true_eq]
+    · simp only [List.cons_append, instrBoundary, Bool.or_eq_true, beq_iff_eq, Bool.and_eq_true, decide_eq_true_eq]
       exact Or.inr ⟨h1, boundary_append_left a b _ h2⟩
 
 /-- peel a whole leading segment -/
 theorem boundary_skip : ∀ (a b : List Instr) (t : Nat),
-    codeSize a ≤ t → boundary b (t - codeSize a) = true → boundary (a ++ b) t = true
+    codeSize a ≤ t → instrBoundary b (t - codeSize a) = true → instrBoundary (a ++ b) t = true
   | [], b, t, _, h => by simpa using h
   | i :: a, b, t, h1, h2 => by
     simp only [codeSize_cons] at h1 h2
     have hp := i.size_pos
-    simp only [List.cons_append, boundary, Bool.or_eq_true, beq_iff_eq, Bool.and_eq_true, decide_eq_true_eq]
+    simp only [List.cons_append, instrBoundary, Bool.or_eq_true, beq_iff_eq, Bool.and_eq_true, decide_eq_true_eq]
     refine Or.inr ⟨by omega, boundary_skip a b _ (by omega) ?_⟩
     have : t - i.size - codeSize a = t - (i.size + codeSize a) := by omega
     rw [this]; exact h2
 
-theorem boundary_end (a : List Instr) (t : Nat) (h : t = codeSize a) : boundary a t = true := by
+theorem boundary_end (a : List Instr) (t : Nat) (h : t = codeSize a) : instrBoundary a t = true := by
   subst h
   have := boundary_skip a [] (codeSize a) (Nat.le_refl _) (by simp)
   simpa using this
 
-theorem boundary_eq {a : List Instr} {t t' : Nat} (h : boundary a t' = true) (e : t = t') : boundary a t = true := e ▸ h
+theorem boundary_eq {a : List Instr} {t t' : Nat} (h : instrBoundary a t' = true) (e : t = t') : instrBoundary a t = true := e ▸ h
 
-theorem boundary_in {a : List Instr} {t' : Nat} (b : List Instr) (t : Nat) (h : boundary a t' = true) (e : t = t') :
-    boundary (a ++ b) t = true := e ▸ boundary_append_left a b t' h
+theorem boundary_in {a : List Instr} {t' : Nat} (b : List Instr) (t : Nat) (h : instrBoundary a t' = true) (e : t = t') :
+    instrBoundary (a ++ b) t = true := e ▸ boundary_append_left a b t' h
 
-theorem boundary_zero' (a : List Instr) (t : Nat) (h : t = 0) : boundary a t = true := by subst h; simp
+theorem boundary_zero' (a : List Instr) (t : Nat) (h : t = 0) : instrBoundary a t = true := by subst h; simp
 
-/-- every offset accepted by `boundary` is the size of a prefix -/
+/-- every offset accepted by `instrBoundary` is the size of a prefix -/
 theorem boundary_iff_prefix : ∀ (is : List Instr) (t : Nat),
-    boundary is t = true ↔ ∃ p q, is = p ++ q ∧ codeSize p = t
+    instrBoundary is t = true ↔ ∃ p q, is = p ++ q ∧ codeSize p = t
   | [], t => by
-    simp only [boundary, beq_iff_eq]
+    simp only [instrBoundary, beq_iff_eq]
     constructor
     · intro h; exact ⟨[], [], rfl, by simp [h]⟩
     · rintro ⟨p, q, h, rfl⟩
@@ -70,7 +70,7 @@ theorem boundary_iff_prefix : ∀ (is : List Instr) (t : Nat),
   | i :: is, t => by
     constructor
     · intro h
-      simp only [boundary, Bool.or_eq_true, beq_iff_eq, Bool.and_eq_true, decide_eq_true_eq] at h
+      simp only [instrBoundary, Bool.or_eq_true, beq_iff_eq, Bool.and_eq_true, decide_eq_true_eq] at h
       rcases h with h | ⟨h1, h2⟩
       · exact ⟨[], i :: is, rfl, by simp [h]⟩
       · obtain ⟨p, q, hpq, hs⟩ := (boundary_iff_prefix is _).1 h2
@@ -85,8 +85,8 @@ theorem boundary_iff_prefix : ∀ (is : List Instr) (t : Nat),
           simp only [codeSize_cons, Nat.add_sub_cancel_left]
           exact (boundary_iff_prefix _ _).2 ⟨p, q, rfl, rfl⟩)
 
-/- Tactic `bnd_tac`: prove `boundary (s₁ ++ (s₂ ++ … )) t` by peeling segments; sizes must be numerals or `codeSize x` atoms.
-    Uses a hypothesis `ht : boundary frag t'` from the context when the target lies inside an abstract fragment. -/
+/- Tactic `bnd_tac`: prove `instrBoundary (s₁ ++ (s₂ ++ … )) t` by peeling segments; sizes must be numerals or `codeSize x` atoms.
+    Uses a hypothesis `ht : instrBoundary frag t'` from the context when the target lies inside an abstract fragment. -/
 /-- literal instruction sizes become numerals, `codeSize x` of abstract fragments stay atoms (for `omega`) -/
 macro "sz_simp" : tactic =>
   `(tactic| simp (config := { failIfUnchanged := false }) only [Instr.size, Op.hasArg, codeSize_cons, codeSize_nil,
@@ -104,10 +104,10 @@ macro_rules
       | (apply boundary_end; sz_simp <;> omega)
       | (refine boundary_eq (by assumption) ?_; omega))
 
-example (a b : List Instr) : boundary (a ++ (⟨.jumpIfFalse, 1 + codeSize b⟩ :: ⟨.pop, 0⟩ :: b)) (codeSize a + 3 + (1 + codeSize b)) = true := by
+example (a b : List Instr) : instrBoundary (a ++ (⟨.jumpIfFalse, 1 + codeSize b⟩ :: ⟨.pop, 0⟩ :: b)) (codeSize a + 3 + (1 + codeSize b)) = true := by
   bnd_tac
-example (a b : List Instr) (t : Nat) (ht : boundary b t = true) :
-    boundary (a ++ (⟨.jumpIfFalse, 1 + codeSize b⟩ :: ⟨.pop, 0⟩ :: (b ++ [⟨.pop, 0⟩]))) (t + (codeSize a + 3 + 1)) = true := by
+example (a b : List Instr) (t : Nat) (ht : instrBoundary b t = true) :
+    instrBoundary (a ++ (⟨.jumpIfFalse, 1 + codeSize b⟩ :: ⟨.pop, 0⟩ :: (b ++ [⟨.pop, 0⟩]))) (t + (codeSize a + 3 + 1)) = true := by
   bnd_tac
 
 /-! ### jumps -/
@@ -150,11 +150,11 @@ theorem jumpsOk_mono {bnd1 bnd2 : Nat → Bool} {d : Nat} (h : ∀ t, bnd1 t = t
     rw [e]; exact this
 
 /-- all jumps of the fragment land on boundaries of the fragment (its end included) -/
-def JumpsClosed (is : List Instr) : Prop := jumpsOk (boundary is) 0 is = true
+def JumpsClosed (is : List Instr) : Prop := jumpsOk (instrBoundary is) 0 is = true
 
 /-- a closed fragment placed at offset `off` of a context that accepts all its (shifted) boundaries -/
 theorem JumpsClosed.place {is : List Instr} (h : JumpsClosed is) {bnd : Nat → Bool} {off : Nat}
-    (hb : ∀ t, boundary is t = true → bnd (t + off) = true) : jumpsOk bnd off is = true := by
+    (hb : ∀ t, instrBoundary is t = true → bnd (t + off) = true) : jumpsOk bnd off is = true := by
   have := jumpsOk_mono hb 0 is h
   simpa using this
 
